@@ -4,7 +4,7 @@ from __future__ import annotations
 from ..model import AnalysisError
 from ..norm import Normalizer, show_term, thaw
 from ..vgraph import FALSE, NONE, TRUE, Closure, show, walk
-from .util import ast_calls_of_attr, bind_args, fields, live, one, params_of, subnodes
+from .util import apply_fn, ast_calls_of_attr, bind_args, fields, live, one, params_of, subnodes
 
 EXPLANATION = (
     "Static value-graph analysis of RolloutBuffer.compute_returns_and_advantages and its call chain. "
@@ -69,10 +69,8 @@ def check(s):
     s.ob("C03.1", con, nz.canon(init) == ("k", 0), "the initial carry is 0 (A_T = 0 beyond the rollout)", loc,
          key="init-not-zero", detail=f"init={show(init)}")
     # C03.2/3 ------------------------------------------------------------
-    if not isinstance(f, Closure):
-        raise AnalysisError(f"{con}: scan body is not a local function: {show(f)}")
     carry = ("param", "$carry")
-    out = b.apply(f, (carry, xs), ())
+    out = apply_fn(b, f, (carry, xs))
     if not (isinstance(out, tuple) and out[0] == "tuple" and len(out[1]) == 2):
         raise AnalysisError(f"{con}: scan body does not return a pair")
     new_carry, emitted = out[1]
